@@ -338,4 +338,23 @@ def exAll : Cell := .mk tyOrdinary 2 [true] [exProof, exUpd]
 example : Spec.WFExotic exAll ∧ Spec.tooDeep exAll = false := by decide +kernel
 example : Spec.cellLevel exAll = 2 ∧ Spec.cellLevel exOrd = 3 := by decide +kernel
 
+/-! Merkle updates with pruned branches on both sides (the `state_update` of a real block): `WFExotic` admits them
+(two refs, `04 hash hash depth depth`, mask = (mask₁ ∨ mask₂) >> 1), so `impl_eq_spec` applies. -/
+
+def exOld : Cell := .mk tyOrdinary 1 [true, true] [exPruned, .mk tyOrdinary 0 [false] []]
+def exNew : Cell := .mk tyOrdinary 1 [true, false] [.mk tyOrdinary 0 [true] [], exPruned]
+/-- old and new state, each with a pruned branch; the update itself has level 0 -/
+def exStateUpdate : Cell := .mk tyMerkleUpdate 0 (Bits.natToBits 8 4 ++ zeros 544) [exOld, exNew]
+def exBlock : Cell := .mk tyOrdinary 0 [true, false, true, true] [exStateUpdate, exLib]
+
+example : Spec.WFExotic exBlock ∧ Spec.tooDeep exBlock = false := by decide +kernel
+
+/-- `impl_eq_spec` instantiated on it (any hash function): the model of `Cell.Hash()` returns the definition's hash -/
+example (H : List UInt8 → List UInt8) : Cell.reprHash H exBlock = .ok (Spec.reprHash H exBlock) :=
+  reprHash_eq_spec H exBlock (by decide +kernel) (by decide +kernel)
+
+/-- under the update the children are taken one level up: at level 1 a mask-1 pruned branch answers with its own
+hash, so the update's hash does not depend on the hashes the pruned branches store (here: all zero) -/
+example : Spec.childLevel tyMerkleUpdate 0 = 1 ∧ Spec.level exOld.mask = 1 := by decide
+
 end Tongo.C02
